@@ -60,7 +60,7 @@ def main():
         if a.startswith("--"):
             continue
         if os.path.isdir(a):
-            paths += sorted(glob.glob(os.path.join(a, "**", "*.diff"), recursive=True))
+            paths += sorted(x for x in glob.glob(os.path.join(a, "**", "*.diff"), recursive=True) if "/superseded/" not in x)
         else:
             paths.append(a)
     bad = 0
